@@ -234,6 +234,35 @@ def unconfigured_element(enc, hexbm):
     return h
 
 
+def pds_overflow(enc):
+    """more PDS data than the configured carrier elements can hold cannot be laid out: refused, never emitted with entries missing"""
+    def h():
+        from . import ref, packaged
+        iso = M().iso8583
+        custom = choose('cfg', ['one-carrier', 'packaged'])
+        if custom == 'one-carrier':
+            cfgs = {'2': {'field_type': 'LLVAR', 'field_length': 0}, '48': {'field_type': 'LLLVAR', 'field_length': 0, 'field_processor': 'PDS'}}
+            msg = {'MTI': '1240', 'DE2': '5412345678901234', 'PDS0001': 'A' * 900, 'PDS0002': 'B' * 900}
+        else:
+            cfgs = packaged.bit_config()
+            msg = {'MTI': '1240', 'DE2': '5412345678901234'}
+            for i in range(6):
+                msg['PDS%04d' % (i + 1)] = chr(65 + i) * 990
+        rp = {'kind': 'pds_overflow', 'args': {'msg': msg, 'enc': enc, 'cfg': cfgs if custom == 'one-carrier' else 'packaged'}}
+        core.set_fallback(rp, 'C02/concretised')
+        try:
+            got = iso.dumps(dict(msg), encoding=enc, iso_config=cfgs if custom == 'one-carrier' else None)
+        except core.ControlFlow:
+            raise
+        except Exception:
+            return {'sample': {'cfg': custom, 'refused': True}, 'replay': rp}
+        d, _ = ref.ref_decode(got, cfgs, enc, False)
+        lost = [k for k in msg if k.startswith('PDS') and d.get(k) != msg[k]]
+        require(not lost, 'dumps returned a message from which %s is missing' % lost, key='C02/pds-overflow', replay=rp)
+        return {'sample': {'cfg': custom, 'refused': False}, 'replay': rp}
+    return h
+
+
 DE43_FAMILY = [
     'ACME STORE\\12 HIGH ST\\MELBOURNE\\3103      VICAUS',
     'ACME STORE  \\12 HIGH ST   \\MELBOURNE   \\      3103VICAUS',
@@ -304,6 +333,8 @@ def obligations(tier):
     for direction, mk_h in (('enc', encode), ('dec', decode)):
         obs.append(Ob('generic/g-decimal/%s/cp500' % direction, mk_h(lambda: list(choose('subset', dsub)), 'cp500', False, cfgs=GENERIC_DEC), 300,
                       'caller-supplied configuration with decimal fields (FIXED 12 / LLVAR): concrete decimal values incl. exponent forms (1E+2, 2.5E+3, 1E-3)', _funcs))
+    obs.append(Ob('pds-overflow/latin_1', pds_overflow('latin_1'), 120,
+                  'more PDS data than the carrier elements hold (one configured carrier and 2 x 900; packaged carriers and 6 x 990): refused, or nothing missing', _funcs))
     for enc, hexbm in (('latin_1', False), ('cp500', True)):
         obs.append(Ob('unconfigured-element/%s/%s' % (enc, 'hex' if hexbm else 'bin'), unconfigured_element(enc, hexbm), 120,
                       'a value for an element without configuration (packaged and a two-element caller configuration): refused, or bitmap and data agree', _funcs))
